@@ -30,6 +30,8 @@ type aqP struct {
 	Prefix    string // "" std | default | odd
 	Decl      string
 	Lex       string // purely lexical serialisation variant (lexVals)
+	HTTP      string // HTTP-level shape (world.HTTPShapes)
+	CType     string // "" text/xml; charset=utf-8 | text-xml-bare | soap12 (application/soap+xml) | soapaction (SOAPAction header present)
 	ID        string // "" ok | special
 	IDRaw     *string
 	SPCert    string // "" one | none
@@ -345,7 +347,19 @@ func aqBuild(p aqP) (*world.World, *http.Request, *aqTruth) {
 			doc = env.Render(st)
 		}
 	}
-	return w, msg.SOAPRequest(host, cfg.AttributePath(), doc), t
+	req := msg.SOAPRequest(host, cfg.AttributePath(), doc)
+	switch p.CType {
+	case "":
+	case "soap12":
+		req.Header.Set("Content-Type", "application/soap+xml; charset=utf-8")
+	case "text-xml-bare":
+		req.Header.Set("Content-Type", "text/xml")
+	case "soapaction":
+		req.Header.Set("SOAPAction", "\"http://www.oasis-open.org/committees/security\"")
+	default:
+		panic("aqBuild: CType " + p.CType)
+	}
+	return w, world.Shape(req, p.HTTP), t
 }
 
 func (p *aqP) set(name, val string) {
@@ -382,6 +396,10 @@ func (p *aqP) set(name, val string) {
 		p.Decl = val
 	case "Lex":
 		p.Lex = val
+	case "HTTP":
+		p.HTTP = val
+	case "CType":
+		p.CType = val
 	case "ID":
 		p.ID = val
 	case "SPCert":
